@@ -717,7 +717,21 @@ class Gen:
         body = _Scope(sc)
         body.vars[k] = 'R'
         extra = f' and {self.boolean(body, 1)}' if self.rng.random() < self.p.get('while_extra_cond_prob', 0.3) else ''
+        first = None
+        if sc.of('L') and self.p['comprehension'] and self.rng.random() < self.p.get('while_reduce_cond_prob', 0):
+            # the condition holds a reduction over a list that the body writes: it has to be evaluated again before every iteration
+            xs = self.rng.choice(sc.of('L'))
+            w = self.fresh('w')
+            fn = self.rng.choice(['any', 'all'])
+            self.need_len(self._root(xs), 1)
+            self.need_len(xs, 1)
+            extra = f' and {fn}([({w} {self.rng.choice(["<", ">=", "!=", "=="])} {self.real(sc, 1)}) for {w} in {xs}])'
+            first = f'{xs}[0] = {self.real(sc, 2)}'
+            n = self.rng.choice([2, 3, 4])
+            self.features.add('while_cond_reduction_over_written_list')
         self.emit(ind, f'while {k} < {n}{extra}:')
+        if first:
+            self.emit(ind + 1, first)
         self.loop_depth += 1
         hide = _Scope(body)
         del hide.vars[k]           # the body must not reassign the counter
